@@ -31,7 +31,7 @@ type c15Case struct {
 }
 
 func genC15(r *rand.Rand) (cs c15Case) {
-	cs = c15Case{Entry: r.IntN(4), Comp: vk.Pick(r, "retry", "retry", "hedge", "none", "retry>timeout", "timeout>retry", "timeout>hedge"), FailN: r.IntN(3), Cancel: vk.Pick(r, "none", "none", "parked", "delay", "racing", "racing", "after-done", "in-ondone"), Micro: int64(r.IntN(300)) * 1000}
+	cs = c15Case{Entry: r.IntN(4), Comp: vk.Pick(r, "retry", "retry", "hedge", "none", "retry>timeout", "timeout>retry", "timeout>hedge", "hedge!", "timeout>hedge!"), FailN: r.IntN(3), Cancel: vk.Pick(r, "none", "none", "parked", "delay", "racing", "racing", "after-done", "in-ondone"), Micro: int64(r.IntN(300)) * 1000}
 	if cs.Comp == "none" && (cs.Cancel == "parked" || cs.Cancel == "delay") {
 		cs.Comp = "retry" // the ErrExecutionCanceled clause is stated for executions under a retry or hedge policy
 	}
@@ -56,6 +56,11 @@ func genC15(r *rand.Rand) (cs c15Case) {
 	}
 	if cs.Cancel == "delay" && cs.FailN == 0 {
 		cs.FailN = 1
+	}
+	if cs.Comp == "hedge!" {
+		// a hedge that really starts (1ms delay): every attempt parks, the Cancel comes once the last hedge is parked too,
+		// i.e. while the policy waits for a result with no hedge left to start
+		cs.Cancel = "parked"
 	}
 	if cs.Cancel == "parked" {
 		cs.ParkAt = 1 + r.IntN(cs.FailN+1)
@@ -118,8 +123,11 @@ func c15Scenario(rep *vk.Report, idx int) {
 	value := 7000 + idx%1000
 	body := func(exec failsafe.Execution[int]) (int, error) {
 		k := int(calls.Add(1))
-		if cs.Cancel == "parked" && k == cs.ParkAt && exec != nil {
-			parkOnce.Do(func() { close(parked) })
+		firing := strings.HasSuffix(cs.Comp, "hedge!")
+		if cs.Cancel == "parked" && (k == cs.ParkAt || firing) && exec != nil {
+			if !firing || k == 2 {
+				parkOnce.Do(func() { close(parked) })
+			}
 			select {
 			case <-gate:
 			case <-exec.Canceled():
@@ -153,6 +161,8 @@ func c15Scenario(rep *vk.Report, idx int) {
 		}
 	case "hedge":
 		pols = append(pols, hedgepolicy.BuilderWithDelay[int](3*time.Second).Build())
+	case "hedge!":
+		pols = append(pols, hedgepolicy.BuilderWithDelay[int](time.Millisecond).WithMaxHedges(1).Build())
 	}
 	var onDoneExit atomic.Int64
 	var evRes int
